@@ -445,6 +445,42 @@ def x64_expected(name, toks):
     return (X64_SYN.get(name, name), ops)
 
 
+def x64_ops_same(e, g):
+    if e[0] != g[0]:
+        return False
+    if e[0] == "reg":
+        return e[1] == g[1]
+    if e[0] == "imm":
+        return (e[1] - g[1]) % (1 << 64) == 0
+    return (e[2] or None) == (g[2] or None) and (e[5] - g[5]) % (1 << 64) == 0 and (g[1] is None or e[1] == g[1])
+
+
+def x64_key(name, form, sym, toks, exp, got):
+    """root cause of an x64 finding."""
+    if name == "std":
+        return "x64:std:operands-ignored"
+    if sym == "branch-target":
+        return "x64:call-jmp:rel32-ignored"
+    if name == "push":
+        return "x64:push:%s" % sym
+    if sym == "operands-swapped" or (name == "cmp" and got is not None and len(got[1]) == 2 and len(exp[1]) == 2
+                                     and exp[1][0][0] == got[1][1][0] and exp[1][1][0] == got[1][0][0] and sym in ("operand-kind", "register")):
+        return "x64:cmp:operands-swapped"
+    if "mem(rip)" in form and sym in ("mem-base", "operands-swapped"):
+        return "x64:mem-rip:encoded-as-absolute"
+    if name in ("movsxd", "movzx", "movabs"):
+        return "x64:%s:%s" % (name, "operand-size-ignored" if sym in ("register", "mem-size") else sym)
+    if sym == "immediate":
+        return "x64:imm:truncated"
+    if sym in ("register", "mem-size") and got is not None:
+        # same register family / same address, only the size differs: the operand sizes are not checked against each other
+        fam = all((e[0] != "reg") or (g[0] == "reg" and X64_FAMILY.get(e[1]) is not None and X64_FAMILY.get(e[1]) == X64_FAMILY.get(g[1]))
+                  for e, g in zip(exp[1], got[1])) and len(exp[1]) == len(got[1])
+        if fam:
+            return "x64:operand-size:not-checked"
+    return "x64:%s:%s:%s" % (name, form, sym)
+
+
 def x64_equal(exp, got, start, length):
     """structural comparison after canonicalisation; returns None if equal, else a short symptom."""
     if got is None or got[0] == "(prefix)":
@@ -458,8 +494,17 @@ def x64_equal(exp, got, start, length):
         if len(gops) == 1 and gops[0][0] == "imm" and (gops[0][1] - (start + length)) % (1 << 64) == eops[0][1] % (1 << 64):
             return None
         return "branch-target"
+    # imul r, imm is the assembler shorthand of imul r, r, imm
+    if emn == "imul" and len(eops) == 2 and len(gops) == 3 and gops[0] == gops[1]:
+        gops = [gops[0], gops[2]]
     if len(eops) != len(gops):
         return "operand-count"
+    # test is symmetric: objdump prints the r/m operand first
+    if emn == "test" and len(eops) == 2 and eops[1][0] != "imm":
+        key = lambda o: (o[0] != "mem", str(o))
+        eops, gops = sorted(eops, key=key), sorted(gops, key=key)
+    if emn == "cmp" and len(eops) == 2 and x64_ops_same(eops[0], gops[1]) and x64_ops_same(eops[1], gops[0]) and not x64_ops_same(eops[0], eops[1]):
+        return "operands-swapped"
     # mov r, imm: `mov eax, imm32` and `mov rax, imm` with a zero-extended value are the same operation
     if emn == "mov" and len(eops) == 2 and eops[0][0] == "reg" and eops[1][0] == "imm" and gops[0][0] == "reg" and gops[1][0] == "imm":
         er, gr = eops[0][1], gops[0][1]
@@ -929,7 +974,7 @@ def run(ctx):
         x_accept_forms[(name, form)] = x_accept_forms.get((name, form), 0) + 1
         nontrivial.add(("x64", name, form, sym or "ok"))
         if sym:
-            ctx.violation("x64:%s:%s:%s" % (name, form, sym),
+            ctx.violation(x64_key(name, form, sym, toks, exp, got),
                           "x64.Encode accepts `%s` and produces %s, which objdump disassembles as `%s`" % (o, r.split()[1], " ".join(dtext.split())),
                           {"op": o, "impl": r, "objdump": dtext})
         else:
